@@ -35,8 +35,10 @@ structure Db where
   main   : Nat := 0
   gate   : Owner := .free
   copied : List Nat := []
-  /-- finished binary backups: the chunk versions of each -/
-  done   : List (List Nat) := []
+  /-- version of the main file when the running backup took the gate -/
+  began  : Nat := 0
+  /-- finished binary backups: (main-file version when the gate was taken, chunk versions) -/
+  done   : List (Nat × List Nat) := []
 deriving Repr, DecidableEq
 
 inductive Ev where
@@ -55,9 +57,9 @@ def stepDb (d : Db) : Ev → Db
   | .snapBegin => if d.gate = .free then { d with gate := .snapshot } else d
   | .checkpoint k => if d.gate = .snapshot then { d with main := min (d.main + k + 1) d.n } else d
   | .snapEnd => if d.gate = .snapshot then { d with gate := .free } else d
-  | .backupBegin => if d.gate = .free then { d with gate := .backup, copied := [] } else d
+  | .backupBegin => if d.gate = .free then { d with gate := .backup, copied := [], began := d.main } else d
   | .copyChunk => if d.gate = .backup then { d with copied := d.copied ++ [d.main] } else d
-  | .backupEnd => if d.gate = .backup then { d with gate := .free, done := d.done ++ [d.copied], copied := [] } else d
+  | .backupEnd => if d.gate = .backup then { d with gate := .free, done := d.done ++ [(d.began, d.copied)], copied := [] } else d
 
 def runDb (d : Db) : List Ev → Db
   | [] => d
@@ -81,19 +83,23 @@ structure GzipLaw where
   round : ∀ x, dec (enc x) = some x
   /-- a strict prefix of a compressed stream never decodes (header, body or trailer cut) -/
   cut : ∀ x p, p < (enc x).length → dec ((enc x).take p) = none
+  /-- what a gzip writer has emitted for input `x` when it is abandoned WITHOUT `Close`
+  (no final block, no trailer) -/
+  open_ : List UInt8 → List UInt8
+  /-- neither that nor any prefix of it decodes -/
+  open_cut : ∀ x p, dec ((open_ x).take p) = none
 
 inductive Res where
   | error
   | ok (bytes : List UInt8)
 deriving Repr, DecidableEq
 
-/-- `Client.Backup`. `frame` = length-prefixed CommandBackupResponse; `respErr` = it carries
-an error; `payload` = the backup the serving node produces (it always gzips it);
-`cut` = number of bytes of the whole stream that arrive before the connection ends.
+/-- `Client.Backup` reading `frame ++ gz` from the connection, of which `cut` bytes arrive.
+`frame` = length-prefixed CommandBackupResponse; `respErr` = it carries an error;
 `validate` = does the compress=true branch check the stream (false: raw `io.Copy` until EOF). -/
-def clientBackup (G : GzipLaw) (validate compress : Bool) (frame : List UInt8) (respErr : Bool)
-    (payload : List UInt8) (cut : Nat) : Res :=
-  let got := (frame ++ G.enc payload).take cut
+def clientStream (G : GzipLaw) (validate compress : Bool) (frame : List UInt8) (respErr : Bool)
+    (gz : List UInt8) (cut : Nat) : Res :=
+  let got := (frame ++ gz).take cut
   if got.length < frame.length then .error          -- readResponse: short read
   else if respErr then .error
   else
@@ -103,6 +109,45 @@ def clientBackup (G : GzipLaw) (validate compress : Bool) (frame : List UInt8) (
     else match G.dec body with
       | some x => .ok x
       | none => .error
+
+/-- the serving node's backup ran to completion: it wrote `G.enc payload` -/
+def clientBackup (G : GzipLaw) (validate compress : Bool) (frame : List UInt8) (respErr : Bool)
+    (payload : List UInt8) (cut : Nat) : Res :=
+  clientStream G validate compress frame respErr (G.enc payload) cut
+
+/-- what `Store.Backup` (compress forced on by the serving node) has written to the
+connection when its source yielded `produced` and then `ok` says whether it completed.
+`closeOnErr` = the gzip writer is closed (trailer written) even after a failure — the tree
+before the `fix:` commit; now it is closed only on success. -/
+def served (G : GzipLaw) (closeOnErr : Bool) (produced : List UInt8) (ok : Bool) : List UInt8 :=
+  if ok || closeOnErr then G.enc produced else G.open_ produced
+
+/-- a relayed backup whose production on the serving node may fail part way -/
+def relayed (G : GzipLaw) (closeOnErr validate compress : Bool) (frame : List UInt8)
+    (produced : List UInt8) (ok : Bool) (cut : Nat) : Res :=
+  clientStream G validate compress frame false (served G closeOnErr produced ok) cut
+
+/-! ### 4. the HTTP surface: GET /db/backup streams into the response -/
+
+/-- what the HTTP client observes: status, body bytes, and whether the response ended
+normally (false = the connection was broken: a transport error while reading the body) -/
+structure HttpSeen where
+  status : Nat
+  body   : Nat
+  clean  : Bool
+deriving Repr, DecidableEq
+
+/-- `handleBackup`: the backup writes `k` bytes and then either completes (`failed=false`,
+k = the whole backup) or fails. `abort` = a failure after the first byte aborts the response
+(`http.ErrAbortHandler`); before the `fix:` commit the error text was appended and the
+response ended normally. `errLen` = length of that text. -/
+def httpBackup (abort : Bool) (k : Nat) (failed : Bool) (errLen : Nat) : HttpSeen :=
+  if !failed then ⟨200, k, true⟩
+  else if k = 0 then ⟨500, errLen, true⟩
+  else if abort then ⟨200, k, false⟩
+  else ⟨200, k + errLen, true⟩
+
+def httpClientSeesError (r : HttpSeen) : Bool := r.status != 200 || !r.clean
 
 /-- the same at the level of lengths (what the driver executes; gzip abstracted by its law:
 the body decodes iff it is complete) -/
@@ -124,6 +169,9 @@ def clientBackupLen (validate compress : Bool) (frameLen gzLen : Nat) (respErr :
 `db <ev> <ev> ...` with ev ∈ w | sb | cp<k> | se | bb | cc | be → `n=<n> main=<m> done=<v,v|->;<...>`
 `dump <0|1> <s,s,...>` → `<s,s,...>`
 `relay <validate 0|1> <compress 0|1> <frameLen> <gzLen> <respErr 0|1> <cut>` → `error` | `complete` | `truncated <n>`
+`servefail <closeOnErr 0|1> <validate 0|1> <compress 0|1>` → `error` | `ok-partial`   (the serving node's backup
+   fails part way and the whole of what it wrote arrives)
+`http <abort 0|1> <k> <failed 0|1>` → `status=<n> clean=<b> error-visible=<b>`
 -/
 
 structure DState where
@@ -150,7 +198,7 @@ def step (d : DState) (line : String) : DState × String :=
     match evs.mapM evTok with
     | some evs =>
       let r := runDb {} evs
-      (d, s!"n={r.n} main={r.main} done={joinWith ";" (r.done.map natsStr)}")
+      (d, s!"n={r.n} main={r.main} done={joinWith ";" (r.done.map fun x => natsStr x.2)}")
     | none => (d, "bad-op")
   | ["dump", tx, st] =>
     match bit tx, natList st with
@@ -164,6 +212,20 @@ def step (d : DState) (line : String) : DState × String :=
           | .complete => "complete"
           | .truncated n => s!"truncated {n}")
     | _, _, _, _, _, _ => (d, "bad-op")
+  | ["servefail", ce, v, c] =>
+    match bit ce, bit v, bit c with
+    | some ce, some v, some c =>
+      -- by the laws: a closed stream decodes (to the partial data), an abandoned one never does
+      (d, if ce then "ok-partial" else if c && !v then "ok-partial" else "error")
+    | _, _, _ => (d, "bad-op")
+  | ["http", a, k, f] =>
+    match bit a, k.toNat?, bit f with
+    | some a, some k, some f =>
+      let r := httpBackup a k f 30
+      -- (an aborted response may break before or after the status line reached the client)
+      let st := if r.clean then toString r.status else "-"
+      (d, s!"status={st} clean={boolStr r.clean} error-visible={boolStr (httpClientSeesError r)}")
+    | _, _, _ => (d, "bad-op")
   | _ => (d, "bad-op")
 
 def init : DState := {}
